@@ -244,8 +244,8 @@ def T4_cache_load_classification(ctx):
                what='absent ⇒ LoadedNotExisting(None); empty ⇒ LoadedEmptyEIP161(default info); else Loaded(info) — revm State\'s classification, which the status machine builds on')
     isk = ctx.method('parallel_state::ParallelStateView', 'db_storage')
     okc = False
-    for c in ctx.facts.bodies:
-        if c['kind'] == 'closure' and c['fn'].startswith(isk.name + '::'):
+    for c in ctx.facts.closures_under(isk.name):
+        if True:
             cf = ctx.fn(c)
             rets = set()
             for p in feasible(cf.paths()):
